@@ -373,3 +373,73 @@ def guard_agreement_rule(prog, chk, rule, file_filter, floor_n, accepted=None):
                            "entered the sum (masked / incomplete samples are counted)" % ("; ".join(sums[kn][1]) or "none", "; ".join(counters[kd][1]) or "none"),
                            key="%s|%s|%s/%s" % (rule, f.name, kn[2], kd[2]), nontrivial=True)
     chk.floor(rule, n, floor_n)
+
+
+def compact_counter_rule(prog, chk, rule, file_filter, floor_n):
+    """a counter that advances once per ACTIVE sample is a rank among the active samples: it never is the sample rank of a per-sample
+    accessor of the data base (`for (jrow..) { if (!isActive(jrow)) continue; setArray(jj, ..); jj++; }` writes the first samples of
+    the data base, masked ones included, instead of the active ones).  Counter = a local initialised to 0, only ever modified by `++`
+    at the top level of the body of a sample loop, after an activity gate that `continue`s."""
+    import gates
+    n = 0
+    for f in sorted(prog.funcs, key=lambda x: (x.file, x.line)):
+        if f.body is None or not any(s_ in f.file for s_ in file_filter):
+            continue
+        loopvars = set()
+        for L in f.walk():
+            if L["k"] == "For":
+                for part in (L["c"][0], L["c"][2]):
+                    for y in (walk(part) if part is not None else []):
+                        if y["k"] in ("DeclRefExpr", "VarDecl"):
+                            loopvars.add(y.get("d"))
+        counters = {}
+        for L in f.walk():
+            if L["k"] != "For" or len(L["c"]) < 4 or L["c"][3] is None:
+                continue
+            body = L["c"][3]
+            gated = False
+            for st in (body["c"] if body["k"] == "Block" else [body]):
+                if st is None:
+                    continue
+                if st["k"] == "If" and any(y["k"] == "Continue" for y in walk(st)) and any(
+                        y["k"] == "MCall" and (y.get("callee") or "").split("::")[-1] in ("isActive", "isActiveAndDefined", "getSelection") for y in walk(st["c"][-3])):
+                    gated = True
+                    continue
+                if gated and st["k"] == "UnOp" and (st.get("op") or "").replace("post", "") == "++" and st["c"][0] is not None and \
+                        st["c"][0]["k"] == "DeclRefExpr" and st["c"][0].get("d") not in loopvars:
+                    counters[st["c"][0]["d"]] = st
+        # only `= 0` and that `++`
+        for d in list(counters):
+            for x in f.walk():
+                if x["k"] == "Assign" and x["c"][0] is not None and x["c"][0]["k"] == "DeclRefExpr" and x["c"][0].get("d") == d:
+                    r = x["c"][1]
+                    while r is not None and r["k"] == "Cast":
+                        r = r["c"][0]
+                    if x.get("op") != "=" or r is None or r["k"] != "Int" or r.get("v") != 0:
+                        counters.pop(d, None)
+                        break
+                if x["k"] == "UnOp" and x["c"][0] is not None and x["c"][0]["k"] == "DeclRefExpr" and x["c"][0].get("d") == d and d in counters and x["i"] != counters[d]["i"]:
+                    counters.pop(d, None)
+                    break
+        for c in f.calls():
+            if c["k"] != "MCall" or not (c.get("cls") or "").startswith("Db"):
+                continue
+            ri = gates.rank_arg_index(prog, c)
+            a = call_args(c)
+            if ri is None or ri >= len(a) or a[ri] is None:
+                continue
+            x = a[ri]
+            while x["k"] == "Cast":
+                x = x["c"][0]
+            if x["k"] != "DeclRefExpr":
+                continue
+            n += 1
+            bad = x.get("d") in counters
+            if bad:
+                chk.analysed(f)
+            short = (c.get("callee") or "").split("::")[-1]
+            chk.ob(rule, "%s: the sample rank `%s` of %s is not a count of active samples" % (f.name, x["n"], short), f.loc(c), not bad,
+                   detail=None if not bad else "`%s` advances once per ACTIVE sample (it is the rank among the active samples) and is used as the sample rank of the "
+                   "data base: the first samples are accessed, masked ones included, instead of the active ones" % x["n"],
+                   key="%s|%s|%s(%s)" % (rule, f.name, short, x["n"]), nontrivial=bad)
+    chk.floor(rule, n, floor_n)
